@@ -207,9 +207,11 @@ func (c08) Gen(r *Rng, tier string, run int) *Trace {
 				op = []Op{
 					{Obj: parent, M: "Traverse", Args: []Val{vInt(1), vInt(hostileInts(L, r))}, Tag: "hc"},
 					{Obj: parent, M: "Traverse", Args: []Val{vInt(1), vInt(r.Range(0, L)), vInt(0)}, Tag: "hc"},
+					{Obj: parent, M: "Traverse", Args: []Val{vInt(2), vInt(r.Range(0, 2))}, Tag: "hc"},
+					{Obj: parent, M: "Traverse", Args: []Val{vInt(2), vInt(0), vInt(r.Range(0, 1))}, Tag: "hc"},
 					{Obj: parent, M: "IsEqual", Args: []Val{vRef(parent, r.Intn(nDress))}, Tag: "hc"},
 					{Obj: parent, M: "IsEqual", Args: []Val{vRef(s1, 0)}, Tag: "hc"},
-				}[r.Intn(4)]
+				}[r.Intn(6)]
 			}
 			g.emit(op, false)
 		}
